@@ -129,6 +129,30 @@ def split(str, length=80):
     return [chunk for line in str.split("\n") for chunk in textwrap.wrap(line, length)]
 
 
+def _splitEncoded(line, octets):
+    """
+    Divide C{line} into pieces whose UTF-8 encoded form is at most C{octets}
+    long (a single character wider than that is kept whole).
+
+    @rtype: C{list} of C{str}
+    """
+    if len(line.encode("utf-8")) <= octets:
+        return [line]
+    pieces = []
+    current = ""
+    width = 0
+    for character in line:
+        characterWidth = len(character.encode("utf-8"))
+        if current and width + characterWidth > octets:
+            pieces.append(current)
+            current = ""
+            width = 0
+        current += character
+        width += characterWidth
+    pieces.append(current)
+    return pieces
+
+
 def _intOrDefault(value, default=None):
     """
     Convert a value to an integer if possible.
@@ -1751,7 +1775,10 @@ class IRCClient(basic.LineReceiver):
                 "to %s" % (minimumLength, user)
             )
         for line in split(message, length - minimumLength):
-            self.sendLine(fmt + line)
+            # split() counts characters, but the limit is in octets: divide a
+            # chunk further if its encoded form is too long.
+            for piece in _splitEncoded(line, length - len(fmt.encode("utf-8")) - 2):
+                self.sendLine(fmt + piece)
 
     def msg(self, user, message, length=None):
         """
